@@ -28,7 +28,11 @@ impl DumpRegistry {
         DumpRegistry {
             base_dir,
             rrdp_uris: HashMap::new(),
-            rrdp_dirs: HashSet::new(),
+            // The name of the directory for rsync data and the names that
+            // are not a normal path component are never available.
+            rrdp_dirs: ["rsync", "", ".", ".."].iter().map(|name| {
+                String::from(*name)
+            }).collect(),
         }
     }
 
